@@ -31,6 +31,7 @@ def one(b):
     return res
 out=[]
 with cf.ThreadPoolExecutor(j) as ex:
-    for r in ex.map(one,sorted(CHECKS)):
+    only=[a for a in sys.argv[1:] if a.startswith('B')]
+    for r in ex.map(one,[b for b in sorted(CHECKS) if not only or b in only]):
         print(r['id'],r['status'],r.get('checks',''),*r.get('lines',[])); sys.stdout.flush(); out.append(r)
 json.dump(out,open('/verif/tools/benign_result.json','w'),indent=1)
